@@ -130,6 +130,9 @@ def run(check, an: Analysis):
     _check_trigger_coverage(check, an, classes)
     # ---- B ------------------------------------------------------------------
     _check_algebra(check, an, classes)
+    # the kernel rules every suspending operation rests on (shared; see _scope)
+    from . import _scope as _kernel
+    _kernel.check_kernel_core(check, an)
     check.stats.update(an.stats())
 
 
